@@ -1352,7 +1352,7 @@ def lag_verdict(c):
     seen = {}
     for t, w in runs:
         if t in seen:
-            return (f"lag:{sub}:instant-twice-after-1us-early-wakeup | trigger_time {dt_of(t)} was dispatched twice: first when the wall "
+            return (f"lag:{sub}:regressed:instant-twice-after-1us-early-wakeup | trigger_time {dt_of(t)} was dispatched twice: first when the wall "
                     f"clock read {dt_of(seen[t])}, again at {dt_of(w)} (wall clock {scen['ppm']} ppm slower than the sleep clock)")
         seen[t] = w
     # every denoted instant of the window, in order (the last 3 s are left to whatever is still pending)
@@ -1532,7 +1532,7 @@ def classify(c, reason):
         if any(x["kind"] == "cron" and cron_valid(x["expr"]) and cron_next(x["expr"], now_) is None for x in p["specs"]):
             return "cron:regressed:impossible-day-raises"
         if any(_no_such_day(d_, now_) for x in p["specs"] if x["kind"] == "period" for d_ in (x["s"], x["e"])):
-            return "period:month-day-not-this-year-raises"           # open finding C06-F11: period() parses outside the try
+            return "period:regressed:month-day-not-this-year-raises"   # fixed finding C06-F11 (period() start/end parsed inside try)
         if any(x["kind"] == "once" and _no_such_day(x["d"], now_) for x in p["specs"]):
             return "once:regressed:feb-29-raises-in-common-year"
     if not reason.startswith("next=") and "is not after now" not in reason:
@@ -1577,7 +1577,7 @@ def classify(c, reason):
             # the day-offset re-parse is suppressed and that day's instant is dropped
             try:
                 if any(oracle_dt(s["d"], tq, st)[0] == st and tq != st for tq in times[1:]):
-                    return "once:startup-coincidence"
+                    return "once:regressed:startup-coincidence"
             except ValueError:
                 pass
         if requery:
@@ -1600,7 +1600,7 @@ def classify(c, reason):
                 form = None if isinstance(d[1], str) else d[1][0]
                 if got == "none":
                     if today == st and now != st:
-                        return "once:startup-coincidence"
+                        return "once:regressed:startup-coincidence"
                     if form == "dow" and today <= now:
                         return "once:weekday-same-day-after"
                     if form == "md" and today <= now:
